@@ -125,6 +125,9 @@ type Fleet struct {
 	// ShadowTaint marks dbi/key that were uncaptured application changes at
 	// the moment a shadow-mode syncer stopped (documented special case).
 	ShadowTaint map[string]bool
+	// Excluded nodes are not started, restarted or written to by the
+	// standard workload (a profile drives them itself).
+	Excluded map[*Node]bool
 	// LastNew holds, during NodeChanged callbacks, the versions (by dbi/key)
 	// that this transaction introduced and that had never been seen on any
 	// instance before: versions that originate on this node.
@@ -189,6 +192,7 @@ func NewFleet(sim *Sim, root string, cfg FleetCfg) (*Fleet, error) {
 		Tainted:     map[string]bool{},
 		ShadowTaint: map[string]bool{},
 		emptyTxn:    map[*Node]bool{},
+		Excluded:    map[*Node]bool{},
 		RaceKeys:    map[string]bool{},
 		RaceTxn:     map[string]bool{},
 		appLeft:     cfg.AppTxns,
@@ -366,7 +370,7 @@ func (f *Fleet) AppCommit(n *Node, ops []AppOp) Actor {
 func (f *Fleet) running() []*Node {
 	var out []*Node
 	for _, n := range f.Nodes {
-		if n.Running {
+		if n.Running && !f.Excluded[n] {
 			out = append(out, n)
 		}
 	}
@@ -447,7 +451,7 @@ func (f *Fleet) noteStop(n *Node) {
 func (f *Fleet) stopped() []*Node {
 	var out []*Node
 	for _, n := range f.Nodes {
-		if !n.Running {
+		if !n.Running && !f.Excluded[n] {
 			out = append(out, n)
 		}
 	}
@@ -486,6 +490,9 @@ func (f *Fleet) RunWorkload() {
 	c := f.Cfg
 	started := 0
 	for _, n := range f.Nodes {
+		if f.Excluded[n] {
+			continue
+		}
 		if !c.StaggerStart || started == 0 || f.T.Chance("start-now", 600) {
 			if err := n.Start(); err != nil {
 				panic(err)
@@ -601,7 +608,7 @@ func (f *Fleet) RunWorkload() {
 // reapCancelled notices nodes whose Sync returned (cancel or error).
 func (f *Fleet) reapCancelled() {
 	for _, n := range f.Nodes {
-		if n.Running {
+		if n.Running && !f.Excluded[n] {
 			if ret, _ := n.SyncReturned(n.Inc); ret {
 				// The sync loop is gone; make sure the rest is too.
 				f.noteStop(n)
@@ -635,6 +642,9 @@ func (f *Fleet) pickAppNode(parked []*Task) *Node {
 	c := f.Cfg
 	var cands []*Node
 	for _, n := range f.Nodes {
+		if f.Excluded[n] {
+			continue
+		}
 		// Shadow mode: the application only commits in steady state (syncer
 		// running and past its start-up pass); changes made while it is down
 		// or starting are documented to be treated differently.
